@@ -190,6 +190,13 @@ impl<Read: ReadHalf> ReadConnection<Read> {
     pub fn read_half(&self) -> &Read {
         &self.socket
     }
+
+    /// Address and length of the receive buffer (verification hook).
+    #[cfg(zlink_verif)]
+    #[doc(hidden)]
+    pub fn verif_buffer_range(&self) -> (usize, usize) {
+        (self.buffer.as_ptr() as usize, self.buffer.len())
+    }
 }
 
 #[cfg(test)]
